@@ -124,7 +124,15 @@ func (x *Exec) evalCall(call *ast.CallExpr, st *State) []Term {
 	if recv != nil && isInterface(recvT) {
 		return x.callInterfaceMethod(call, fn, *recv, recvT, st)
 	}
+	if pkgPathOf(fn) == "reflect" {
+		return x.callReflect(call, fn, recv, st)
+	}
 	args := x.evalArgs(call, sig, st)
+	after = append(after, x.pendingWriteBacks...)
+	x.pendingWriteBacks = nil
+	if isRepoObj(fn) {
+		x.siteObligations(call, fn, recv, args, st)
+	}
 	res := x.dispatch(call, fn, recv, args, st)
 	for _, f := range after {
 		f()
@@ -171,6 +179,17 @@ func (x *Exec) evalArgs(call *ast.CallExpr, sig *types.Signature, st *State) []T
 		if i >= len(call.Args) {
 			panic(unsupported("missing argument"))
 		}
+		// &lvalue of a non-local location: copy-in / copy-out through a temporary
+		if ue, ok := ast.Unparen(call.Args[i]).(*ast.UnaryExpr); ok && ue.Op == token.AND {
+			if _, isLit := ast.Unparen(ue.X).(*ast.CompositeLit); !isLit && !x.isBoxedIdent(ue.X) {
+				if _, isPtr := pt.Underlying().(*types.Pointer); isPtr || isInterface(pt) {
+					ref, rt, post := x.interiorPointer(ue.X, x.typeOf(ue.X), st)
+					x.pendingWriteBacks = append(x.pendingWriteBacks, post...)
+					args = append(args, x.convert(st, ref, rt, pt))
+					continue
+				}
+			}
+		}
 		args = append(args, x.evalTo(call.Args[i], st, pt))
 	}
 	return args
@@ -182,6 +201,12 @@ func (x *Exec) evalReceiver(se *ast.SelectorExpr, sel *types.Selection, sig *typ
 	recvParamT := sig.Recv().Type()
 	_, wantPtr := recvParamT.Underlying().(*types.Pointer)
 	if isInterface(recvParamT) || isInterface(sel.Recv()) && len(sel.Index()) == 1 {
+		v := x.eval(se.X, st)
+		return v, x.typeOf(se.X), nil
+	}
+	if fnObj, ok := sel.Obj().(*types.Func); ok && !isRepoObj(fnObj) {
+		// methods of external types are opaque functions of the outer value, even when
+		// promoted from embedded fields
 		v := x.eval(se.X, st)
 		return v, x.typeOf(se.X), nil
 	}
@@ -238,6 +263,15 @@ func (x *Exec) evalReceiver(se *ast.SelectorExpr, sel *types.Selection, sig *typ
 		lv := x.fieldLV(se.X, fieldPath, st, se.Pos())
 		return tmp, recvParamT, []func(){func() { lv.store(st, x.loadPtr(st, tmp, curT)) }}
 	}
+}
+
+func (x *Exec) isBoxedIdent(e ast.Expr) bool {
+	if id, ok := ast.Unparen(e).(*ast.Ident); ok {
+		if v, ok := x.info().Uses[id].(*types.Var); ok {
+			return x.boxed[v] || isLogType(v.Type())
+		}
+	}
+	return false
 }
 
 // interiorPointer models &e for a non-local lvalue by copy-in/copy-out through a temporary.
@@ -338,7 +372,7 @@ func (x *Exec) evalBuiltin(call *ast.CallExpr, name string, st *State) []Term {
 			ks, vs := mh.ks, mh.vs
 			_, _ = ks, vs
 			has := sel(x.heapGet(st, mh.has, arraySort(SInt, arraySort(ks, SBool))), v)
-			return []Term{x.mapCard(has)}
+			return []Term{ite(eq(v, intLit(0)), intLit(0), x.mapCard(has))}
 		}
 		panic(unsupported("len of " + t.String()))
 	case "append":
@@ -564,6 +598,9 @@ func (x *Exec) litOf(e ast.Expr) *ast.FuncLit {
 
 func (x *Exec) callInterfaceMethod(call *ast.CallExpr, fn *types.Func, recv Term, recvT types.Type, st *State) []Term {
 	sig := fn.Type().(*types.Signature)
+	if why, ok := x.maybeNil[recv.S]; ok {
+		x.safety(st, "nil-deref", not(eq(recv, intLit(0))), "method call on a value that "+why+" may return as nil: "+x.exprString(call.Fun), call.Pos())
+	}
 	args := x.evalArgs(call, sig, st)
 	if isErrorMethod(fn) {
 		return []Term{x.ctx.App("errorString", SStr, recv)}
